@@ -305,21 +305,22 @@ def unroll_for(E, stmt, st, items):
 
 
 def seq_length_and_elem(E, s, it):
-    """symbolic sequence -> (length term, elem(index term) -> value)"""
+    """symbolic sequence -> (length term, elem(index term, state) -> value); elements that
+    are heap objects are allocated in the state passed to elem"""
     if isinstance(it, TokList):
-        return int_term(it.length), (lambda i: Tok(it.stream, z3.simplify(int_term(it.off) + i)))
+        return int_term(it.length), (lambda i, s2=None: Tok(it.stream, z3.simplify(int_term(it.off) + i)))
     if isinstance(it, HistList):
-        return int_term(it.length), (lambda i: SKind(it.name(i)))
+        return int_term(it.length), (lambda i, s2=None: SKind(it.name(i)))
     if isinstance(it, RangeVal):
         lo, hi = int_term(it.lo), int_term(it.hi)
-        return z3.If(hi > lo, hi - lo, 0), (lambda i: mk_int(lo + i))
+        return z3.If(hi > lo, hi - lo, 0), (lambda i, s2=None: mk_int(lo + i))
     if isinstance(it, RevIter):
         n, el = seq_length_and_elem(E, s, it.base)
-        return n, (lambda i: el(n - 1 - i))
+        return n, (lambda i, s2=None: el(n - 1 - i, s2))
     if isinstance(it, EnumIter):
         n, el = seq_length_and_elem(E, s, it.base)
         start = int_term(it.start)
-        return n, (lambda i: (mk_int(start + i), el(i)))
+        return n, (lambda i, s2=None: (mk_int(start + i), el(i, s2)))
     if isinstance(it, Ref) and isinstance(s.cell(it), ObjCell) and s.cell(it).cls in E.seq_models:
         return E.seq_models[s.cell(it).cls](E, s, it)
     raise Unsupported(f"for loop over {it!r}")
@@ -339,10 +340,18 @@ def cut_for(E, stmt, st, it, spec, ordinal):
     out = []
     for s2, more in E.split(st, idx < n):
         if not more:
-            # exhausted
+            # exhausted: a simple loop variable keeps the last element (or stays unbound)
+            if isinstance(stmt.target, ast.Name) and stmt.target.id not in assigned_names(stmt.body):
+                for s2b, nonempty in E.split(s2, n > 0):
+                    if nonempty:
+                        s2b.locals[stmt.target.id] = elem(n - 1, s2b)
+                    elif isinstance(s2b.locals.get(stmt.target.id), Undefined):
+                        s2b.locals.pop(stmt.target.id, None)
+                    out.extend(E.exec_block(stmt.orelse, s2b) if stmt.orelse else [(s2b, ("next",))])
+                continue
             out.extend(E.exec_block(stmt.orelse, s2) if stmt.orelse else [(s2, ("next",))])
             continue
-        for s3, fl in E.assign(s2, stmt.target, elem(idx)):
+        for s3, fl in E.assign(s2, stmt.target, elem(idx, s2)):
             if fl[0] != "next":
                 out.append((s3, fl))
                 continue
